@@ -209,6 +209,7 @@ def run(idx: ProgramIndex, rep: Report, tier: str):
         "C03-8": "no method overwrites a tensor owned by the object (cache entry, parameter, buffer, training data) in place, except the `.data` initialisation idiom and flag fill_()",
         "C03-9": "branches on the value-neutral setting detach_test_caches differ by .detach() only (what justifies leaving it out of every cache key)",
         "C03-7": "memo primitives: the three key builders agree, args/kwargs enter the key, clear_cache_hook rebinds to an empty dict",
+        "C03-12": "a value planted into an object's memo (add_to_cache) is stored under the key its reader uses: as many key arguments as the @cached reader takes",
         "C03-11": "evaluation-mode caches read by the prediction path do not keep an autograd graph under the default settings.detach_test_caches(True) (or clear themselves when back-propagated through): a backward pass through one prediction leaves the next one differentiable",
         "C03-10": "a value-changing setting read while the model's own modules (kernels, means, likelihoods) are evaluated reaches every prediction cache: the strategy keys or re-validates its caches by it",
     }
@@ -227,6 +228,7 @@ def run(idx: ProgramIndex, rep: Report, tier: str):
     state_not_overwritten(idx, rep)
     module_settings_reach_caches(idx, rep)
     caches_survive_backward(idx, rep)
+    memo_keys_agree(idx, rep)
     rep.assume("regulariser/precision settings (variational_cholesky_jitter, cholesky_jitter, _linalg_dtype_cholesky) are not changed between two evaluation-mode calls on the same model: gpytorch caches Cholesky factors computed with them by design")
     rep.assume("settings read only inside linear_operator (CG vs Cholesky, Lanczos rank) select between algorithms for the same quantity (the 'iterative paths at tight tolerance' caveat of C01)")
     rep.assume("direct parameter edits while staying in eval mode are outside the documented invalidation points (excluded by the property)")
@@ -1432,3 +1434,70 @@ def _enclosing_ifs(fn: ast.AST, target: ast.AST) -> List[ast.AST]:
         return False
     rec(fn.body, [])
     return out
+
+
+# ---- C03-12 --------------------------------------------------------------------------------------------------------
+def memo_keys_agree(idx: ProgramIndex, rep: Report):
+    """`add_to_cache(obj, name, value, *args)` plants a value in obj's memo under (name, args, kwargs); a `@cached(name=name)` method
+    `m(self, a1, .., ak)` reads (name, (a1, .., ak), kwargs).  A writer that passes fewer (or more) key arguments than the reader takes
+    stores an entry that is never read: the carefully updated cache is dropped silently and the reader recomputes from its own
+    ingredients - which is precisely what the writer meant to override (fantasy models: incrementally updated mean caches, pseudo-noise
+    of the variational fantasy model).  Readers that ignore their arguments (ignore_args=True) are keyed by name only."""
+    readers: Dict[str, List[Tuple[ClassInfo, FuncInfo, int, bool]]] = {}
+    for c, m, cname, ig in cached_methods(idx):
+        readers.setdefault(cname, []).append((c, m, len(m.params) - 1, ig))
+    n = 0
+    for fi in sorted(idx.all_functions(), key=lambda f: (f.module.name, f.qualname)):
+        for c in calls_in(fi.node):
+            if (chain(c.func) or "").split(".")[-1] != "add_to_cache" or len(c.args) < 3:
+                continue
+            nm = const_str(c.args[1])
+            if nm is None:
+                continue
+            nargs = len(c.args) - 3
+            if nm not in readers:
+                # entries of third-party objects (linear operators' own caches) have no reader in this package
+                continue
+            n += 1
+            # which classes can the object be?  `obj = self.__class__(...)` / `obj = Cls(...)` in this function pins it down (the enclosing
+            # class and the sub-classes that inherit this method); otherwise every class that has a reader of this name is a candidate
+            cands = []
+            o = c.args[0]
+            if isinstance(o, ast.Name) and o.id == "self" and fi.cls is not None:
+                cands = [fi.cls] + [k for k in idx.subclasses(fi.cls) if k.lookup(fi.name) is fi]
+            elif isinstance(o, ast.Name):
+                for a in ast.walk(fi.node):
+                    if isinstance(a, ast.Assign) and any(isinstance(t, ast.Name) and t.id == o.id for t in a.targets) and isinstance(a.value, ast.Call):
+                        f_ = src(a.value.func)
+                        if f_ in ("self.__class__", "type(self)") and fi.cls is not None:
+                            cands = [fi.cls] + [k for k in idx.subclasses(fi.cls) if k.lookup(fi.name) is fi]
+                        else:
+                            try:
+                                k0 = idx.find_class(f_.split(".")[-1])
+                                cands = [k0] + list(idx.subclasses(k0))
+                            except AnalysisError:
+                                pass
+            if not cands:
+                # unknown object (e.g. `model.prediction_strategy`, produced by a factory): judged against the base-most classes that
+                # have a reader of this name - what the factory returns unless a kernel asks for a specialised sub-class
+                allc = sorted({c_ for c_, _m, _k, _ig in readers[nm]}, key=lambda k: k.qualname)
+                cands = [k for k in allc if not any(k is not k2 and k.is_subclass_of(k2) for k2 in allc)]
+            resolved = []
+            for k_ in cands:
+                for c_, m_, ar, ig in readers[nm]:
+                    if k_ is c_ or (k_.is_subclass_of(c_) and k_.lookup(m_.name) is m_):
+                        resolved.append((k_, m_, ar, ig))
+            bad = [(k_, m_, ar) for k_, m_, ar, ig in resolved if not ig and ar != nargs]
+            ok = bool(resolved) and not bad
+            who = ", ".join(sorted({"%s.%s(%d key argument(s))" % (k_.name, m_.name, ar) for k_, m_, ar, ig in resolved}))[:200] if resolved else "no reader"
+            if bad:
+                who = ", ".join(sorted({"%s.%s(%d key argument(s))" % (k_.name, m_.name, ar) for k_, m_, ar in bad}))[:200]
+            import copy as _copy
+            anon = _copy.deepcopy(c.args[0])
+            for x in ast.walk(anon):
+                if isinstance(x, ast.Name) and x.id != "self":
+                    x.id = "_"
+            rep.add("C03-12", "%s:%s[add_to_cache(%s, '%s', .. %d key args)]" % (fi.module.name, fi.qualname, src(anon), nm, nargs), "%s:%d" % (fi.module.relpath, c.lineno), ok,
+                    "stored under the key of its reader (%s)" % who if ok else
+                    "the entry '%s' is stored with %d key argument(s) but the reader of an object this can be takes another number (%s): the planted value is never read and the reader recomputes it from its own ingredients" % (nm, nargs, who), {})
+    rep.floor("C03-12", "add_to_cache sites with a reader in the package", n, 4)
